@@ -175,6 +175,35 @@ CHECKS = {
         assumptions=["after truncated arguments nothing is asserted about the same simple-server connection (stream desynchronisation is outside the stated clause)"],
         design_ref="DESIGN.md §2 C14",
     ),
+    "C20": dict(
+        title="NATS server shutdown drains: accepted requests answered, none lost or duplicated",
+        legs=[leg("TestC20Shutdown", quick=(100, 4), thorough=(1500, 16), timeout_s=3000, prefixes=["c20."])],
+        level="exploration",
+        technique="property-based testing (rapid): generated worker/queue/burst/handler-duration/Stop-position configurations against an in-process NATS broker, exactly-once accounting per request id",
+        rule=("Workers 1..4, queue length 0..8 (incl. shorter than the burst and unbuffered), burst 0..30 requests with handler durations 0..15 ms, Stop called after the k-th flushed request while the rest of the burst is still being published, "
+              "0..4 requests after Stop returned, publisher on its own or on the server's connection, binary/compact/JSON. Non-trivial: burst > queue+workers, or Stop strictly inside the burst. Distinct: sha256 of the configuration."),
+        level_text=("Exploration: every request published and flushed before Stop was called has been processed exactly once when Serve returns and its reply arrives once the server connection is flushed; "
+                    "requests racing with Stop are processed at most once and replied iff processed; requests published after Stop returned are never processed; nothing is processed after Serve returned; "
+                    "Stop and Serve return within a 10 s watchdog in every configuration."),
+        level_note="Trusted: in-process NATS broker ordering (a publisher flush precedes a later UNSUB of the server connection).",
+        assumptions=["healthy broker; Stop called once"],
+        design_ref="DESIGN.md §2 C20",
+    ),
+    "C07": dict(
+        title="Pub/sub delivers each message once, intact, and isolates bad messages",
+        legs=[leg("TestC07PubSub", quick=(80, 4), thorough=(1000, 16), timeout_s=3000, prefixes=["c07."])],
+        level="exploration",
+        technique="property-based testing (rapid): generated publish sequences (valid / malformed / foreign-topic) over in-process NATS and STOMP brokers, history invariant on the recorded handler invocations",
+        rule=("Sequences of 1..40 publishes on a scope topic: valid (payload + user headers + correlation id through the real publisher client), malformed (0-3 bytes, bad version, hostile header size, wrong op name, truncated payload), "
+              "foreign topic (other operation, other prefix value, other scope); NATS subscriber with 1..4 workers with/without queue group, STOMP topic subscriber; binary/compact/JSON; on NATS 0..3 publishes after Unsubscribe returned. "
+              "Non-trivial: a valid message after a malformed one, or a foreign-topic message, or a post-unsubscribe publish. Distinct: sha256 of the sequence + configuration."),
+        level_text=("Exploration: the recorded invocations equal the valid same-topic publishes (as a sequence for a single worker / STOMP, as a multiset for several workers) with equal payload, user headers and correlation id; "
+                    "foreign-topic and malformed messages produce no invocation and do not stop later deliveries; nothing published after Unsubscribe returned is delivered."),
+        level_note=("Trusted: in-process brokers. The embedded go-stomp broker never acknowledges UNSUBSCRIBE and does not route /queue destinations from /topic publishes, so the STOMP Unsubscribe clause and queue mode are not exercised; "
+                    "STOMP SUBSCRIBE is unacknowledged, the harness waits for a sentinel message before publishing."),
+        assumptions=["healthy broker connection", "publisher and malformed injections share one connection so the interleaving is the broker's order"],
+        design_ref="DESIGN.md §2 C07",
+    ),
 }
 
 NOT_APPLICABLE = [
